@@ -344,13 +344,18 @@ func c10Random(r *Rng) C10Case {
 			if meth != "get" && meth != "head" && r.Chance(70) {
 				content := map[string]any{}
 				for k := 0; k < 1+r.Intn(2); k++ {
-					ct := Pick(r, []string{"application/json", "text/plain", "application/x-www-form-urlencoded", "multipart/form-data", "application/octet-stream", "application/problem+json", "*/*", "text/csv", "application/zip", "application/x-yaml"})
+					ct := Pick(r, []string{"application/json", "text/plain", "application/x-www-form-urlencoded", "multipart/form-data", "application/octet-stream", "application/problem+json", "*/*", "text/csv", "application/zip", "application/x-yaml", "application/yaml", "application/x-yaml"})
 					mt := jobj("schema", Pick(r, []any{c10Schema(r, 2), jref("schemas", "Rec"), jref("schemas", "D"), jref("schemas", "M"), jref("schemas", "MT"), jref("schemas", "TRec"), jref("schemas", "TItems"), jobj("type", "object", "properties", jobj("a", c10Schema(r, 1), "f", jobj("type", "string", "format", "binary")))}))
 					if ct == "multipart/form-data" && r.Chance(50) {
 						mt = jobj("schema", jref("schemas", "M"))
 					}
 					if strings.Contains(ct, "form") && r.Chance(40) {
 						mt["encoding"] = jobj("a", jobj("contentType", Pick(r, []string{"application/json", "text/plain", "bogus"}), "style", "form", "explode", r.Bool()))
+					}
+					if strings.Contains(ct, "yaml") && r.Chance(60) {
+						// a schema that says something without stating a type
+						mt = jobj("schema", Pick(r, []any{jobj("properties", jobj("a", jobj("type", "integer")), "required", []any{"a"}), jobj("minimum", 1), jobj("format", "date-time"), jobj("required", []any{"when"}),
+							jobj("additionalProperties", jobj("minimum", 0))}))
 					}
 					if r.Chance(10) {
 						mt = jobj() // a media type without schema
@@ -457,7 +462,15 @@ func c10Random(r *Rng) C10Case {
 				"--b\r\nContent-Disposition: form-data; name=\"a\"\r\nContent-Type: application/x-www-form-urlencoded\r\n\r\nx=1&y=2\r\n--b--\r\n",
 				"--b\r\nContent-Disposition: form-data; name=\"a\"\r\nContent-Type: multipart/form-data; boundary=c\r\n\r\n--c\r\nContent-Disposition: form-data; name=\"x\"\r\n\r\n1\r\n--c--\r\n\r\n--b--\r\n",
 				"--b\r\nContent-Disposition: form-data; name=\"a\"\r\nContent-Type: application/json\r\n\r\n{\"x\":1}\r\n--b\r\nContent-Disposition: form-data; name=\"f\"; filename=\"f.bin\"\r\nContent-Type: application/octet-stream\r\n\r\n\x00\x01\r\n--b--\r\n",
-				"--b\r\nContent-Disposition: form-data; name=\"a\"\r\nContent-Type: text/csv\r\n\r\n1,2\r\n--b\r\nContent-Disposition: form-data; name=\"a\"\r\nContent-Type: application/x-yaml\r\n\r\nx: 1\r\n--b--\r\n"})
+				"--b\r\nContent-Disposition: form-data; name=\"a\"\r\nContent-Type: text/csv\r\n\r\n1,2\r\n--b\r\nContent-Disposition: form-data; name=\"a\"\r\nContent-Type: application/x-yaml\r\n\r\nx: 1\r\n--b--\r\n",
+				// a part whose own content type is JSON and whose text is not (the error has no parameter to name)
+				"--b\r\nContent-Disposition: form-data; name=\"a\"\r\nContent-Type: application/json\r\n\r\n{\"size\": \r\n--b--\r\n",
+				"--b\r\nContent-Disposition: form-data; name=\"f\"\r\nContent-Type: application/json\r\n\r\n[1,\r\n--b\r\nContent-Disposition: form-data; name=\"a\"\r\n\r\n1\r\n--b--\r\n"})
+		}
+		if r.Chance(10) {
+			// a YAML body whose values JSON cannot express (content type and body agree)
+			q.Header["Content-Type"] = []string{Pick(r, []string{"application/x-yaml", "application/yaml"})}
+			q.Body = Pick(r, []string{"1: x\n", "a:\n  2: z\n", "when: 2001-01-01\n", "n: 18446744073709551615\n", "a: 2001-01-01T10:00:00Z\nb: !!binary aGk=\n", "- {3: 4}\n", "a: .inf\n"})
 		}
 		if ct := Pick(r, cts); ct != "" {
 			q.RHeader["Content-Type"] = []string{ct}
